@@ -36,9 +36,10 @@ def pctr_parts(quick):
     return out
 # the two layers composed (WholeCompose.v): generic CTR encryption with the call run by the block function's own code
 def comp_parts(quick):
-    if quick: return ["comp_c128_19_5_40", "comp_c64_9_8_32"]
+    if quick: return ["comp_c128_19_5_40", "comp_c64_9_8_32", "comp_mc_19_3_7"]
     return ["comp_c128_%d_%d_%d" % (sz, off, R) for sz, off in ((19, 5), (17, 16), (1, 0), (33, 16)) for R in (40, 48, 56)] + \
-           ["comp_c64_%d_%d_%d" % (sz, off, R) for sz, off in ((9, 8), (19, 3), (1, 0), (17, 8)) for R in (32, 36, 40)]
+           ["comp_c64_%d_%d_%d" % (sz, off, R) for sz, off in ((9, 8), (19, 3), (1, 0), (17, 8)) for R in (32, 36, 40)] + \
+           ["comp_mc_%d_%d_%d" % (sz, off, R) for sz, off in ((9, 8), (19, 3), (1, 0), (17, 8)) for R in (5, 6, 7, 8)]
 # parallel ECB functionally, both callees as procedure calls (WholePar.v): zero blocks, fewer than a group, whole groups, groups
 # plus left-over blocks, per back end and direction
 def ppar_parts(quick):
